@@ -617,11 +617,24 @@ fn relearn_case(word: &str, other: &str, fault: u8, i1: usize, i2: usize, st: &m
     if o != c_other {
         return Err(fail("failed-save-loses-more-than-one-choice", format!("after the failed save for {word:?} the live context preselects {o:?} for {other:?}, learned as {c_other:?}")));
     }
-    // repair, restart
+    // repair, restart: the user's directory is there again with the files it had.  If the engine has meanwhile put
+    // something of its own where the directory belongs, that stays (a user who re-mounts a directory does not delete what
+    // is in the way either): the old files are moved in next to it where their names are free.
     if fault == 1 {
-        std::fs::remove_file(sb.user_dir()).expect("remove the file");
+        let _ = std::fs::remove_file(sb.user_dir());
     }
-    std::fs::rename(&away, sb.user_dir()).expect("rename back");
+    if std::fs::rename(&away, sb.user_dir()).is_err() {
+        let _ = std::fs::create_dir_all(sb.user_dir());
+        if let Ok(rd) = std::fs::read_dir(&away) {
+            for e in rd.flatten() {
+                let to = sb.user_dir().join(e.file_name());
+                if !to.exists() {
+                    let _ = std::fs::rename(e.path(), to);
+                }
+            }
+        }
+        st.label("engine-created-something-in-place-of-the-missing-directory");
+    }
     // the directory is healthy again: the LIVE context's next learning commit must reach the file ("loses at most
     // that one learned choice" - not every later one)
     let third = ["tumi", "rat", "boi"].iter().find(|w| **w != word && **w != other).copied().unwrap_or("tumi");
